@@ -30,3 +30,23 @@ Definition hub_exec (tbl : list (bytes * bytes)) (m0 : list (bytes * bytes))
   let s := run (fun x => x) (hub_cname tbl) s0 sched in
   let sents := imap (fun i _ => match procs s !! i with Some q => sent q | None => [] end) progs in
   (sents, map_to_list (live s), map map_to_list (run_trace (fun x => x) (hub_cname tbl) s0 sched)).
+
+(** ** Executable instance of the read loop (Model/Wire.v) with the sequential
+    handlers of Model/HubSeq.v; the CBOR decoder is a table produced by the
+    harness with the REAL decoder (payload |-> decoded request, or undecodable). *)
+From Copia Require Import Model.Wire Model.HubSeq.
+
+Definition wreq := @sreq bytes.
+Definition wreply := @sreply bytes.
+
+Fixpoint dec_lookup (tbl : list (bytes * option wreq)) (payload : bytes) : option wreq :=
+  match tbl with
+  | [] => None
+  | (p, r) :: rest => if decide (p = payload) then r else dec_lookup rest payload
+  end.
+
+Definition wire_exec (tbl : list (bytes * bytes)) (m0 : list (bytes * bytes))
+    (dec : list (bytes * option wreq)) (inp : bytes) :=
+  let o := serve_input (gmap bytes bytes) wreq wreply (dec_lookup dec) is_bye content_len
+             (fun t r c => Some (seq_handle (fun x => x) (hub_cname tbl) t r c)) inp (list_to_map m0) in
+  (o_exit _ _ o, o_replies _ _ o, map_to_list (o_tree _ _ o), o_allocs _ _ o).
